@@ -149,10 +149,22 @@ func regLDAP() {
 		}
 		return b
 	}
-	bin("ldap.ParseSIDFromBytes", func(in []byte) error {
+	sidEP := bin("ldap.ParseSIDFromBytes", func(in []byte) error {
 		ldap.ParseSIDFromBytes(in)
 		return nil
 	}, sid(5, 21, 3623811015, 3361044348, 30300820, 1013), sid(5, 32, 544), sid(5, 18), sid(1))
+	// every count byte 0..255 with a buffer that really carries that many sub-authorities (and 1 or 4 bytes more / less)
+	for n := 0; n < 256; n++ {
+		subs := make([]uint32, n)
+		for i := range subs {
+			subs[i] = uint32(0x01010101 * (i%200 + 1))
+		}
+		full := sid(5, subs...)
+		sidEP.PlainSeeds = append(sidEP.PlainSeeds, full, append(append([]byte{}, full...), 0, 0, 0, 0), append(append([]byte{}, full...), 0xFF))
+		if n > 0 {
+			sidEP.PlainSeeds = append(sidEP.PlainSeeds, full[:len(full)-1], full[:len(full)-4])
+		}
+	}
 	text("ldap.GetDomainFromDistinguishedName", "DC=,a.\\ ", 5, 6, func(s string) error { ldap.GetDomainFromDistinguishedName(s); return nil },
 		"CN=user,OU=x,DC=example,DC=com", "DC=a")
 	text("ldap.ConvertLDAPTimeStampToUnixTimeStamp", "0129-+ .", 5, 6, func(s string) error { ldap.ConvertLDAPTimeStampToUnixTimeStamp(s); return nil },
